@@ -432,9 +432,12 @@ func unionTypenameStrips(c *Case, u map[string]fedgen.Ret, frags map[string]Frag
 		for _, s := range sels {
 			switch {
 			case s.Spread != "":
+				if !selIncluded(s, c.Vars) {
+					continue
+				}
 				f := frags[s.Spread]
 				walk(path, typ, f.Subs, union)
-			case s.On != "" && !dirIncluded(s.Dir, c.Vars):
+			case s.On != "" && !selIncluded(s, c.Vars):
 				// an excluded fragment asks for nothing
 			case s.On != "":
 				if _, isObj := fedgen.ObjTypes[s.On]; isObj {
@@ -451,7 +454,7 @@ func unionTypenameStrips(c *Case, u map[string]fedgen.Ret, frags map[string]Frag
 					walk(path, typ, s.Subs, union)
 				}
 			default:
-				if !dirIncluded(s.Dir, c.Vars) {
+				if !selIncluded(s, c.Vars) {
 					continue
 				}
 				if s.Name == "__typename" {
@@ -528,6 +531,11 @@ func sortedSubs(l []subRequest) []subRequest {
 		return out[i].Text < out[j].Text
 	})
 	return out
+}
+
+// selIncluded: graphql.ShouldIncludeNode on the directives of a selection: kept only if every directive allows it.
+func selIncluded(s Sel, vars map[string]bool) bool {
+	return dirIncluded(s.Dir, vars) && dirIncluded(s.Dir2, vars)
 }
 
 func dirIncluded(d *Dir, vars map[string]bool) bool {
